@@ -75,6 +75,17 @@ CLAIMED['C05'] = (
     'finding (reservoir colder than injection temperature accepted); float rounding and the sampled correspondence trusted (DESIGN §5)',
     'Lean 4 proof over an exact rational model + whole-run snapshot correspondence')
 
+CLAIMED['C15'] = (
+    'Lean theorems for all lifetimes, steps per year, pressures and rates: the production-reservoir pressure predictor starts at the stated '
+    'multiple of hydrostatic, follows max(hydrostatic, P0 - t*(P0-hydrostatic)/floor(100/rate*n)) including the early break, is monotone and '
+    'never below hydrostatic, is flat at exactly 100 %; injection pressure = initial + rate/n * t; every pumping-power path ends in the clamp '
+    '(>= 0) and the total is the sum of the two sides; laminar friction is proportional to D^-4; PARTIAL: turbulent friction monotonicity is proved '
+    'up to a stated hypothesis on the Colebrook factor. Tied to the code by direct differential of the two predictors, whole runs under both '
+    'hydraulic models, and ordered diameter pairs of real runs.',
+    'kernel + propext/Classical.choice/Quot.sound; partial for the turbulent branch (log10/pow/sqrt not rational); CoolProp densities/viscosities and '
+    'the pressure-drop formulas feeding the clamps are observed; float-floor ties skipped; sampled correspondence trusted (DESIGN §5)',
+    'Lean 4 proof over an exact rational model (partial for turbulent friction) + direct and whole-run differential')
+
 PENDING_REASON = 'check not built yet in this commit (work in progress; see DESIGN.md §9 for the order)'
 
 
